@@ -59,3 +59,13 @@ Proof.
 Qed.
 Lemma message_twice_refutes : exists w ops e t, go w ops = Some e /\ msgs e t SCompleted = 2.
 Proof. exists w_twice, []. destruct (refute _ _ _ _ terminal_message_twice) as (e & E & H). exists e, 1. auto. Qed.
+
+(* C03, one terminal event: a workflow without steps completes in its own run (workflow.rs run, site 8), is emitted there and
+   once more by Task::next, which emits every task it finds completed: the terminal process event is delivered twice *)
+Definition terminal_events (e : eng) : nat :=
+  length (filter (fun x => match x with EProc s _ => is_completed s | _ => false end) (trace e)).
+Definition w_empty := wf [].
+Lemma empty_workflow_two_terminal_events : option_map terminal_events (go w_empty []) = Some 2.
+Proof. vm_compute. reflexivity. Qed.
+Lemma terminal_twice_refutes : exists w ops e, go w ops = Some e /\ terminal_events e = 2.
+Proof. exists w_empty, []. exact (refute _ _ _ _ empty_workflow_two_terminal_events). Qed.
